@@ -420,7 +420,7 @@ def stream_hubbard(ctx, E):
     sizes = [(x, y) for x in range(1, 5) for y in range(1, 5)]
     extra = [(x, y) for x in range(1, 7) for y in range(1, 7) if (x, y) not in sizes]
     sizes += extra if big else rng.sample(extra, 5)
-    reps = 3 if big else 1
+    reps = (5 if ctx.tier == 'thorough' else 3) if big else 1
     cases = []
     for (x, y) in sizes:
         for p in (True, False):
@@ -615,7 +615,7 @@ def stream_fhm(ctx, E):
                '4 parts vs Model exactly; docstring formula over Spec edge sets; Hermiticity / N / S_z conservation (spec.eq, <= 8 modes); '
                'FermiHubbardModel = fermi_hubbard where the conventions coincide')
     rng = rng_for(ctx.seed, 'c13-fhm')
-    n = budget(ctx.tier, 300, 1500)
+    n = budget(ctx.tier, 300, 3000)
     if ctx.drift:
         n = max(n, 600)
     cases = [gen_fhm(rng, ctx.tier == 'thorough') for _ in range(n)]
